@@ -22,7 +22,13 @@ pub struct Msg {
     pub chunks: Option<Vec<usize>>,
     /// exact bytes of start line + header block (incl. final CRLFCRLF)
     pub raw_head: Vec<u8>,
+    /// bodies above BIG_BODY are not retained: length and SHA-256 only
+    pub body_len: usize,
+    pub body_sha: Option<[u8; 32]>,
 }
+
+/// bodies larger than this are replaced by their digest in the mock host's log
+pub const BIG_BODY: usize = 4 << 20;
 
 impl Msg {
     pub fn method(&self) -> &str {
@@ -108,7 +114,7 @@ pub fn parse(buf: &[u8], is_response: bool, head_request: bool, eof: bool) -> Pa
             None => return Parse::Malformed(format!("bad header line {:?}", String::from_utf8_lossy(l))),
         }
     }
-    let mut m = Msg { a, b, c, headers, body: Vec::new(), chunks: None, raw_head: head.to_vec() };
+    let mut m = Msg { a, b, c, headers, body: Vec::new(), chunks: None, raw_head: head.to_vec(), body_len: 0, body_sha: None };
     let te = m.header("transfer-encoding").unwrap_or_default().to_ascii_lowercase();
     let cl = m.header("content-length");
     if is_response {
@@ -246,6 +252,42 @@ impl Client {
     pub fn send(&mut self, bytes: &[u8]) -> std::io::Result<()> {
         self.stream.write_all(bytes)
     }
+    /// Send a large request in pieces; stop as soon as the peer has started to answer (a server may
+    /// refuse a body it has not read). Write errors are not fatal: the response is read afterwards.
+    /// Returns the number of bytes actually written.
+    pub fn send_watchful(&mut self, bytes: &[u8]) -> usize {
+        let mut sent = 0usize;
+        let _ = self.stream.set_write_timeout(Some(Duration::from_secs(20)));
+        while sent < bytes.len() {
+            // anything to read already?
+            let _ = self.stream.set_nonblocking(true);
+            let mut tmp = [0u8; 4096];
+            let got = self.stream.read(&mut tmp);
+            let _ = self.stream.set_nonblocking(false);
+            match got {
+                Ok(0) => {
+                    self.eof = true;
+                    break;
+                }
+                Ok(n) => {
+                    self.buf.extend_from_slice(&tmp[..n]);
+                    break;
+                }
+                Err(e) if e.kind() == std::io::ErrorKind::WouldBlock => {}
+                Err(_) => {
+                    self.eof = true;
+                    break;
+                }
+            }
+            let end = (sent + (256 << 10)).min(bytes.len());
+            match self.stream.write(&bytes[sent..end]) {
+                Ok(0) => break,
+                Ok(n) => sent += n,
+                Err(_) => break,
+            }
+        }
+        sent
+    }
     /// Read one response. Err(text) on timeout / reset / malformed.
     pub fn read_response(&mut self, head_request: bool, timeout: Duration) -> Result<Msg, String> {
         let deadline = Instant::now() + timeout;
@@ -270,6 +312,7 @@ impl Client {
                 return Err(format!("timeout with {} buffered bytes", self.buf.len()));
             }
             let _ = self.stream.set_read_timeout(Some((deadline - now).max(Duration::from_millis(1))));
+            quickack(&self.stream);
             let mut tmp = [0u8; 65536];
             match self.stream.read(&mut tmp) {
                 Ok(0) => self.eof = true,
@@ -412,6 +455,7 @@ impl MockHost {
         let mut idx = 0usize;
         let mut tmp = vec![0u8; 1 << 16];
         'outer: loop {
+            quickack(&s);
             match s.read(&mut tmp) {
                 Ok(0) | Err(_) => break,
                 Ok(n) => {
@@ -426,8 +470,13 @@ impl MockHost {
                         self.push(Event::Malformed { conn, why });
                         break 'outer;
                     }
-                    Parse::Complete(m, used) => {
+                    Parse::Complete(mut m, used) => {
                         buf.drain(..used);
+                        m.body_len = m.body.len();
+                        if m.body.len() > BIG_BODY {
+                            m.body_sha = Some(crate::sha::sha256(&m.body));
+                            m.body = Vec::new();
+                        }
                         self.push(Event::Request { conn, idx, req: m.clone() });
                         let r = self.responder.lock().unwrap().clone();
                         let act = r(&m, conn, idx);
@@ -486,6 +535,15 @@ impl MockHost {
             .into_iter()
             .filter_map(|e| if let Event::Request { conn, req, .. } = e { Some((conn, req)) } else { None })
             .collect()
+    }
+}
+
+/// avoid 40 ms delayed-ACK stalls against peers that do not set TCP_NODELAY
+pub fn quickack(s: &TcpStream) {
+    use std::os::fd::AsRawFd;
+    let one: libc::c_int = 1;
+    unsafe {
+        libc::setsockopt(s.as_raw_fd(), libc::IPPROTO_TCP, libc::TCP_QUICKACK, &one as *const _ as *const _, 4);
     }
 }
 
